@@ -235,7 +235,7 @@ func init() {
 		NonTrivial: func(r *sim.Result) bool { return r.Stats["C17 handled messages judged"] > 20 && r.Commits > 0 },
 		Rule:       "(a) filter level: operation sequences on the real RawMessageFilter + State with recording per-term handlers (see the filter_* keys); (b) worker level, in sim executions over 3 heights with node syncs, the main-loop -> worker hand-off of syncs and election triggers split into two steps (so a newer sync's context cancellation can overtake an older round start), members that sit out the committee of later heights, support / other-instance traffic sent into lagging nodes' future cache: every message that reaches the protocol logic (a Store* call) must be of the height of the installed term and of a committee the node is a member of, and the observable height must be the installed term's height after every step. non-trivial (b) = more than 20 handled messages judged and a commit",
 		Floors:     map[string]int{"C17 handled messages judged": 100000, "commits": 1200},
-		Judged:     []string{"C17 handled messages judged", "commits", "C13 rounds"},
+		Judged:     []string{"C17 handled messages judged", "C17 cached messages of correct members judged at the start of their height", "commits", "C13 rounds"},
 		Extra: func(run *harness.Run) ([]harness.Finding, map[string]interface{}, []string) {
 			fs, cov, inc := unit.CheckC17Unit(run)
 			ev := map[string]interface{}{}
